@@ -31,13 +31,13 @@ type Case struct {
 	Role        string `json:"role"`         // initiator | participant
 	CommitN     int    `json:"commit_retry"` // tm commit-retry-count
 	RollbackN   int    `json:"rollback_retry"`
-	Begin       string `json:"begin"`        // ok | fail | transport
+	Begin       string `json:"begin"` // ok | fail | transport
 	Transport   int    `json:"second_phase_transport_errors"`
 	Final       string `json:"second_phase_final"` // ok | fail | noreply
 	Cancel      string `json:"cancel"`             // never | before-begin | in-callback | second-phase-first-request
 	Propagation int    `json:"propagation"`        // 0 Required (default), 1 RequiresNew
 	Reused      bool   `json:"reused,omitempty"`   // the caller's seata context already carried an earlier, finished global transaction
-	Inner       string `json:"inner,omitempty"`    // "" | join: the callback runs a nested Required scope on the same context (a participant that sends nothing)
+	Inner       string `json:"inner,omitempty"`    // "" | join: the callback runs a nested Required scope on the same context (a participant that sends nothing) | never: a nested Never scope, which refuses to start and sends nothing
 }
 
 type sentinel struct{ s string }
@@ -134,6 +134,11 @@ func execute(c Case) observed {
 			if c.Inner == "join" {
 				// a nested scope that joins: it must not disturb the initiator's decision
 				_ = tm.WithGlobalTx(ctx, &tm.GtxConfig{Name: "c04-inner"}, func(context.Context) error { return nil })
+			}
+			if c.Inner == "never" {
+				// a nested scope that refuses to start (Never inside a transaction): its error is handled by the
+				// callback, the initiator's own decision must still be sent
+				_ = tm.WithGlobalTx(ctx, &tm.GtxConfig{Name: "c04-inner", Propagation: tm.Never}, func(context.Context) error { return nil })
 			}
 			switch c.Outcome {
 			case "error":
@@ -355,8 +360,11 @@ func drawCase(t *rapid.T) Case {
 		Final:     rapid.SampledFrom([]string{"ok", "ok", "fail"}).Draw(t, "final"),
 		Cancel:    rapid.SampledFrom([]string{"never", "never", "never", "before-begin", "in-callback", "second-phase-first-request"}).Draw(t, "cancel"),
 	}
-	if rapid.IntRange(0, 3).Draw(t, "inner") == 0 {
+	switch rapid.IntRange(0, 5).Draw(t, "inner") {
+	case 0:
 		c.Inner = "join"
+	case 1:
+		c.Inner = "never"
 	}
 	c.Reused = rapid.IntRange(0, 3).Draw(t, "reused") == 0
 	return c
